@@ -127,6 +127,89 @@ pub fn check_with(tree: &Expr, threads: Option<u32>, acc: &mut Acc) {
     }
 }
 
+/// Actions the target cannot express (-prune, -ls, -fls) are actions all the same: under every
+/// combination of run options the expression is either refused (C12's subject) or compiled
+/// without an implicit print.  When it compiles, the expected output is that of the tree with
+/// -prune read as find documents it (always true, writes nothing); listings cannot be predicted,
+/// so for them only a line that is exactly the file's path counts (an implicit print).
+fn unsupported_actions() -> Acc {
+    let name = || Expr::Test(Test::Name("x".into()));
+    let mut trees = vec![];
+    for a in [Action::Prune, Action::Ls, Action::Fls("l".into())] {
+        let a = Expr::Action(a);
+        trees.push(a.clone());
+        trees.push(Expr::and(name(), a.clone()));
+        trees.push(Expr::or(Expr::and(name(), a.clone()), Expr::Test(Test::Name("y".into()))));
+        trees.push(Expr::or(Expr::and(Expr::Test(Test::Name(".snapshot".into())), a.clone()), name()));
+        trees.push(Expr::not(a.clone()));
+        trees.push(Expr::List(Box::new(a.clone()), Box::new(name())));
+        trees.push(Expr::and(Expr::Test(Test::True), Expr::or(a.clone(), Expr::Test(Test::False))));
+        trees.push(Expr::or(Expr::and(name(), a.clone()), Expr::Action(Action::Print)));
+    }
+    let mut acc = Acc::new();
+    for tree in &trees {
+        for depth in [false, true] {
+            for threads in [None, Some(2u32)] {
+                acc.states += 1;
+                acc.transitions += 1;
+                let Some(real) = conv::expr_to_real(tree) else { continue };
+                let wit = json!({"kind": "unsupported-action", "tree": tree, "depth": depth, "threads": threads});
+                let (text, io) = match compile_render(&real, &subject::options(depth, threads), "/dev") {
+                    C::Ok(v) => v,
+                    C::Err(_) => {
+                        acc.count("refused", 1);
+                        continue;
+                    }
+                    C::Panic(p) => {
+                        acc.violate(Violation::new(format!("C09:panic:{}", panic_site(&p)), format!("{}: {p}", tree.show()), wit));
+                        continue;
+                    }
+                };
+                acc.validated += 1;
+                let recs = records();
+                let Ok(obs) = observe(&text, &io, &recs) else { continue };
+                fn subst(e: &Expr) -> Expr {
+                    match e {
+                        Expr::Action(Action::Prune) | Expr::Action(Action::Ls) | Expr::Action(Action::Fls(_)) => Expr::Test(Test::True),
+                        Expr::Not(a) => Expr::not(subst(a)),
+                        Expr::Prec(a) => Expr::prec(subst(a)),
+                        Expr::And(a, b) => Expr::and(subst(a), subst(b)),
+                        Expr::Or(a, b) => Expr::or(subst(a), subst(b)),
+                        Expr::List(a, b) => Expr::List(Box::new(subst(a)), Box::new(subst(b))),
+                        x => x.clone(),
+                    }
+                }
+                let only_prune = {
+                    let mut listing = false;
+                    tree.visit_leaves(&mut |l| listing |= matches!(l, Expr::Action(Action::Ls) | Expr::Action(Action::Fls(_))));
+                    !listing
+                };
+                for (i, r) in recs.iter().enumerate() {
+                    let got = coalesce(&obs.records[i].events);
+                    let implicit = format!("{}\n", r.rel_path);
+                    let bad = if only_prune {
+                        let want = eval::eval(&subst(tree), r, 1_700_000_000).map(|w| coalesce(&w.events)).ok();
+                        want.map_or(false, |w| w != got)
+                    } else {
+                        // a listing line carries more than the path
+                        let written_print = { let mut p = false; tree.visit_leaves(&mut |l| p |= matches!(l, Expr::Action(Action::Print))); p };
+                        !written_print && got.iter().filter(|e| e.dest.is_none()).any(|e| e.text.lines().any(|l| format!("{l}\n") == implicit))
+                    };
+                    if bad {
+                        acc.violate(Violation::new(
+                            "C09:print-added-although-action-present:unsupported-action-compiled",
+                            format!("{} compiled with depth={depth} threads={threads:?} (the tree contains an action, so nothing may be added): on file {:?} the policy wrote {got:?}", tree.show(), r.name),
+                            wit.clone(),
+                        ));
+                        break;
+                    }
+                }
+            }
+        }
+    }
+    acc
+}
+
 /// n clauses "test -a action" joined by -o (the action count, the operator depth and the
 /// resource count all grow with n), and the same without any action.
 fn long_trees() -> Vec<Expr> {
@@ -255,6 +338,7 @@ pub fn run(ctx: &Ctx) -> i32 {
     }));
     let sp = special_destinations();
     acc = acc.merge(speclib::report::par_items(&sp, |t, acc| check(t, acc)));
+    acc = acc.merge(unsupported_actions());
     let mut h = Acc::new();
     histories(&mut h);
     acc = acc.merge(h);
@@ -265,7 +349,7 @@ pub fn run(ctx: &Ctx) -> i32 {
             level: "model_checking",
             exhaustive: true,
             rule: "state = expression tree over {true, false, name test, print, quit, file print} and all operators; compiled by the real compile(), the policy executed by the runtime model on a matching and a non-matching file; expected output computed from find's rule stated directly (no action anywhere => ( expr ) -a -print; otherwise only the written actions); distinct = distinct (output, has-action) observations".into(),
-            bound: format!("every tree with <= {maxn} leaves over 6 leaves x 3 binary operators; for <= 3 leaves every negation of each leaf and of the root, above that the tree and its negation; chains of 8..513 clauses (every size in the range) with an action in every clause / in the first term only / nowhere; all 1- and 2-leaf trees under -threads 1, 2, 64; every call history of length 2..3 on a fresh thread over three failing compiles (before / after an action, in a format) and three compilable expressions"),
+            bound: format!("every tree with <= {maxn} leaves over 6 leaves x 3 binary operators; for <= 3 leaves every negation of each leaf and of the root, above that the tree and its negation; chains of 8..513 clauses (every size in the range) with an action in every clause / in the first term only / nowhere; all 1- and 2-leaf trees under -threads 1, 2, 64; every call history of length 2..3 on a fresh thread over three failing compiles (before / after an action, in a format) and three compilable expressions; 24 trees whose only actions are -prune / -ls / -fls under depth x threads options (refused, or compiled without an added print)"),
             assumptions: vec!["runtime model of DESIGN.md §3 (print-relative-path writes the path and a newline to standard output)".into()],
             extra: serde_json::Map::new(),
         },
@@ -274,6 +358,9 @@ pub fn run(ctx: &Ctx) -> i32 {
 
 pub fn replay(w: &Value) -> Vec<Violation> {
     let mut acc = Acc::new();
+    if w["kind"] == "unsupported-action" {
+        return unsupported_actions().violations.into_values().map(|(v, _)| v).collect();
+    }
     if w["kind"] == "history" {
         histories(&mut acc);
     } else if let Ok(t) = serde_json::from_value::<Expr>(w["tree"].clone()) {
